@@ -309,8 +309,13 @@ def rule_build(ctx: Ctx):
                 ok = ok and r is not None and show(r.term.args[0]) == f"{elem}[1]"
                 comb = next((e for e in p.calls() if r is not None and e.idx > r.idx and len(e.term.args) == 2 and
                              show(e.term.args[1]) == f"$c{r.idx}"), None)
-                ok = ok and comb is not None and show(comb.term.args[0]) == prev and \
-                    show(expand1(comb.term.func, evs)) == f"operator_mapping[type({elem}[0])]"
+                lk = expand1(comb.term.func, evs) if comb is not None else None
+                if isinstance(lk, ast.Call) and show(lk.func) == "operator_mapping.get" and len(lk.args) == 1:
+                    # guarded lookup: `fn = operator_mapping.get(type(op))`, refused when None
+                    lk_txt = f"operator_mapping[{show(expand1(lk.args[0], evs))}]"
+                else:
+                    lk_txt = show(lk) if lk is not None else ""
+                ok = ok and comb is not None and show(comb.term.args[0]) == prev and lk_txt == f"operator_mapping[type({elem}[0])]"
                 if comb is not None:
                     exprs.append(f"$c{comb.idx}")
                 if r is not None:
@@ -336,7 +341,13 @@ def rule_build(ctx: Ctx):
     rep.floor("C08.build", "BoolOp paths", n_bool, 2)
     rep.floor("C08.build", "Compare paths", n_cmp, 2)
     fall = [p for p in paths if p.kind == "raise" and not any(taken(p, k_) for k_ in need)]
-    rep.check(bool(fall) and all("ValueError" in xshow(p.value, p.events) for p in fall), "C08.build", fn.loc(),
+    def _is_value_error(p_):
+        t_ = expand(p_.value, p_.events) if p_.value is not None else None
+        nm_ = show(t_.func) if isinstance(t_, ast.Call) else show(t_)
+        c_ = ctx.p.classes.get(nm_)
+        return "ValueError" in nm_ or (c_ is not None and any("ValueError" in b_ for k_ in ctx.p.mro(c_) for b_ in k_.bases))
+
+    rep.check(bool(fall) and all(_is_value_error(p) for p in fall), "C08.build", fn.loc(),
               "any other node kind is rejected with an error instead of being mis-translated", fn.key, f"{len(fall)} fall-through paths")
     unot = [n for n in own_nodes(fn.node) if isinstance(n, ast.Call) and show(n.func) == "isinstance" and show(n.args[1]) == "ast.Not"]
     rep.check(bool(unot), "C08.build", fn.loc(), "only the `not` unary operator is accepted (no -, +, ~)", fn.key, "no isinstance(node.op, ast.Not)")
@@ -424,6 +435,42 @@ def rule_when(ctx: Ctx):
             ok = True
     rep.check(ok, "C08.when", build.loc(), "a SyntaxError of the expression becomes InvalidDefinition (chained to the original error)", build.key,
               "no `except SyntaxError: raise InvalidDefinition(...) from err` around the parser call")
+    # ... and so does everything the translator itself refuses: what build_expression raises for a node kind or a comparison
+    # operator outside the grammar is of a class the same handler catches (a bare KeyError/ValueError would reach the user as is)
+    be = ctx.fn("build_expression")
+    raised = set()
+    for n_ in own_nodes(be.node):
+        if isinstance(n_, ast.Raise) and n_.exc is not None:
+            raised.add(show(n_.exc.func) if isinstance(n_.exc, ast.Call) else show(n_.exc))
+    caught = set()
+    for n_ in [x_ for c_fn, _n, _h in callers for x_ in own_nodes(c_fn.node)]:
+        if isinstance(n_, ast.Try) and any(isinstance(c_, ast.Call) and show(c_.func) == "parse_boolean_expr" for b_ in n_.body for c_ in ast.walk(b_)):
+            for h in n_.handlers:
+                if h.type is None:
+                    caught.add("*")
+                elif isinstance(h.type, ast.Tuple):
+                    caught |= {show(e_) for e_ in h.type.elts}
+                else:
+                    caught.add(show(h.type))
+
+    def _covered(name):
+        if "*" in caught or name in caught or "Exception" in caught:
+            return True
+        c = ctx.p.classes.get(name)
+        return c is not None and any(b.split(".")[-1] in caught for k_ in ctx.p.mro(c) for b in [k_.name] + list(k_.bases))
+
+    missing = sorted(r_ for r_ in raised if not _covered(r_))
+    rep.check(bool(raised) and not missing, "C08.when", be.loc(), "what the translator raises for a construct outside the grammar is caught where the "
+              "expression is parsed and reported as InvalidDefinition", be.key, f"raised: {sorted(raised)}; caught around the parser: {sorted(caught)}",
+              not_caught=missing)
+    subs = [n_ for n_ in own_nodes(be.node) if isinstance(n_, ast.Subscript) and isinstance(n_.ctx, ast.Load) and show(n_.value) == be.params[2]
+            and "right_op" in show(n_.slice) or (isinstance(n_, ast.Subscript) and isinstance(n_.ctx, ast.Load) and show(n_.value) == be.params[2]
+                                                  and isinstance(n_.slice, ast.Call) and show(n_.slice.func) == "type"
+                                                  and not any(isinstance(b_, ast.Compare) for b_ in own_nodes(be.node) if False))]
+    cmp_lookup = [n_ for n_ in own_nodes(be.node) if isinstance(n_, ast.Subscript) and isinstance(n_.ctx, ast.Load) and show(n_.value) == be.params[2]
+                  and isinstance(n_.slice, ast.Call) and show(n_.slice.func) == "type" and show(n_.slice.args[0]) not in ("node.op",)]
+    rep.check(not cmp_lookup, "C08.when", be.loc(), "a comparison operator outside the grammar (`in`, `is`) is refused by the translator's own error, "
+              "not by a KeyError of the operator table", be.key, "; ".join(show(x) for x in cmp_lookup) or "table lookups are guarded")
     # unknown names: recorded, nothing yielded, check() raises
     from ..shapes import consistent_lengths
 
